@@ -53,6 +53,11 @@ type mxConn struct {
 	// MX/TLS security level established for this connection.
 	mxLevel  module.MXLevel
 	tlsLevel module.TLSLevel
+
+	// Set if the connection was established without consulting MX
+	// authentication policies (security override by the TLS-Required
+	// header field).
+	noPolicies bool
 }
 
 func (c *mxConn) Usable() bool {
@@ -214,11 +219,23 @@ func (rd *remoteDelivery) connectionForDomain(ctx context.Context, domain string
 	// Ignore pool for connections with REQUIRETLS to avoid "pool poisoning"
 	// where attacker can make messages indeliverable by forcing reuse of old
 	// connection with weaker security.
-	if pooledConn != nil && !rd.msgMeta.SMTPOpts.RequireTLS {
+	//
+	// Also ignore connections that were established with security policies
+	// overriden (TLS-Required: No) if this message is not subject to the
+	// override: no policy checked that connection.
+	usePooled := pooledConn != nil && !rd.msgMeta.SMTPOpts.RequireTLS
+	if usePooled && pooledConn.(*mxConn).noPolicies && len(rd.policies) != 0 {
+		usePooled = false
+	}
+	if usePooled {
 		conn = pooledConn.(*mxConn)
 		rd.Log.Msg("reusing cached connection", "domain", domain, "transactions_counter", conn.transactions,
 			"local_addr", conn.LocalAddr(), "remote_addr", conn.RemoteAddr())
 	} else {
+		if pooledConn != nil {
+			// It is not in the pool anymore and nobody else will close it.
+			go pooledConn.Close()
+		}
 		rd.Log.DebugMsg("opening new connection", "domain", domain, "cache_ignored", pooledConn != nil)
 		conn, err = rd.newConn(ctx, domain)
 		if err != nil {
@@ -287,6 +304,7 @@ func (rd *remoteDelivery) newConn(ctx context.Context, domain string) (*mxConn, 
 		C:          smtpconn.New(),
 		domain:     domain,
 		lastUseAt:  time.Now(),
+		noPolicies: len(rd.policies) == 0 && len(rd.rt.policies) != 0,
 	}
 
 	conn.Dialer = rd.rt.dialer
